@@ -268,7 +268,8 @@ class TypedNode(Node):
             for n in topnodes:
                 if n._data_id in existing_ids:
                     raise UniqueConstraintError("Node.data already exists in parent")
-            if isinstance(before, (int, TypedNode)) and before is not False:
+            if isinstance(before, int) and before is not False:
+                # Repeatedly inserting at the same index reverts the order
                 topnodes = topnodes[::-1]
             for n in topnodes:
                 self.add_child(n, kind=n.kind, before=before, deep=deep)
